@@ -35,9 +35,10 @@ open GunYu GunYu.Checkpoint GunYu.Migrate
     the ids in any other database is smaller (`Holds`); `_runid` fields store
     their own id; a new key name holds no field of the ids yet OR what a rename cut after its
     first HSET left (`LocOk`: its fields of the ids read `X` in `d` and are smaller elsewhere,
-    so the re-run after such a cut is covered as well); if the key stays
-    and `d` already holds fields of the new id that the hash does not map (an
-    interrupted earlier re-key), the old id's fields in `d` alone read `X` too.
+    so the re-run after such a cut is covered as well). (A further precondition of earlier rounds —
+    if the key stays and `d` already holds fields of the new id that the hash does not map, the old
+    id's fields alone read `X` too — is gone with the repair D34: the operation no longer deletes the
+    entry it has just written.)
     `o1`,`o2` = database orders of the operation's two loops, `oS` = of the next
     start (each only has to contain `d`, which is non-empty). -/
 theorem update_prefix_safe (ver id1 id2 loc : Bytes) (t₀ : Target) (n r : Bytes) (d : Nat) (X now : Int)
@@ -175,7 +176,7 @@ theorem update_restart_reads_local (ver id1 id2 loc : Bytes) (t₀ : Target) (n 
             = some (loc, id1) := by rw [hg, hnl, hr1]
         rw [updateReqs_noop ver o1' o2' now' this]
         exact hnl ▸ F.holds
-      · exact rerun_on_first ver P F hnow' o1' o2' ho1' (fun h => absurd h hnl)
+      · exact rerun_on_first ver P F hnow' o1' o2' ho1'
   · rw [startIds_eq hh, if_neg (fun h => P.hne h.1), updateReqs_noop ver o1' o2' now' hh]
     exact hH
 
@@ -210,58 +211,58 @@ theorem update_restart_reads_local_swapped (ver id1 id2 loc : Bytes) (t₀ : Tar
           = some (loc, id1) := by rw [F.hash, P.hn, hnl, hr1]
       rw [updateReqs_noop ver o1' o2' now' hg]
       exact hnl ▸ F.holds
-    · exact rerun_on_first ver P F hnow' o1' o2' ho1' (fun h => absurd h hnl)
+    · exact rerun_on_first ver P F hnow' o1' o2' ho1'
   · have hg : getHash (applyAll t₀ ((updateReqs ver t₀ loc [id1, id2] o1 o2 now).take k)).hash [id2, id1]
         = some (loc, id1) := getHash_of_second (h3 hu) (getHash_first P.hne P.h1 hh).1
     rw [startIds_eq hg, if_pos ⟨rfl, P.hne⟩, updateReqs_noop ver o1' o2' now' hh]
     exact hH
 
-/-- the RETRY of the same call (same ids, same order) on every crash state. One more precondition
-    than `update_prefix_safe`: when the key stays and the hash maps the OLD id (a re-key in place),
-    the old id's fields ALONE read the position in `d` (`Carrier id2`) — the normal state of a
-    position labelled with the id the hash maps. Without it the statement is false (example `exOrph`
-    below: the old id's own entry reads 50, a stray `<new>_offset = 70` without its run id makes the
-    pair read 70; cut after the first HSET, the retry finds the new id's run id, takes the NEW id
-    for the old one and deletes what the first run wrote). -/
+/-- the RETRY of the same call (same ids, same order) on every state an attempt that did not complete
+    leaves — a stop after `k` requests, or an error reply to request `k+1` (the failing request is not
+    applied and `UpdateCheckpoint` returns: the same target state). After the repairs D33
+    (`RedisOutput.SetRunId` keeps the old id while attempts fail, so its `RetryLinearJitter` passes
+    `[new, old]` again) and D34 (`UpdateCheckpoint` does not delete the entry it has just written) this
+    is what the code retries, and it needs no precondition beyond `update_prefix_safe`'s. -/
 theorem update_rerun_reads_local (ver id1 id2 loc : Bytes) (t₀ : Target) (n r : Bytes) (d : Nat)
     (X now now' : Int) (P : UpdPre id1 id2 loc t₀ n r d X now)
-    (hcar : n = loc → id1 ≠ r → Carrier id2 t₀ n d X)
     (o1 o2 o1' o2' oS : List Nat) (ho1 : d ∈ o1) (ho1' : d ∈ o1') (hoS : d ∈ oS)
     (hnow' : -(2^63 : Int) ≤ now' ∧ now' < 2^63) (k : Nat) :
     ∃ c, getCheckpoint ver
         (applyAll (applyAll t₀ ((updateReqs ver t₀ loc [id1, id2] o1 o2 now).take k))
           (updateReqs ver (applyAll t₀ ((updateReqs ver t₀ loc [id1, id2] o1 o2 now).take k)) loc [id1, id2]
             o1' o2' now')) loc [id1, id2] oS = some (c, (d : Int)) ∧ c.offset = X := by
-  suffices h : Holds [id1, id2]
-      (applyAll (applyAll t₀ ((updateReqs ver t₀ loc [id1, id2] o1 o2 now).take k))
-        (updateReqs ver (applyAll t₀ ((updateReqs ver t₀ loc [id1, id2] o1 o2 now).take k)) loc [id1, id2]
-          o1' o2' now')) loc d X from (read_local ver h oS hoS).1
-  by_cases hbr : n ≠ loc ∨ id1 ≠ r
-  case neg =>
-    have hnl : n = loc := by
-      by_cases h : n = loc
-      · exact h
-      · exact absurd (Or.inl h) hbr
-    have hr1 : id1 = r := by
-      by_cases h : id1 = r
-      · exact h
-      · exact absurd (Or.inr h) hbr
-    have hg : getHash t₀.hash [id1, id2] = some (loc, id1) := by rw [P.hn, hnl, hr1]
-    rw [updateReqs_noop ver o1 o2 now hg]
-    simp only [List.take_nil, applyAll, List.foldl_nil]
-    have := updateReqs_noop ver o1' o2' now' hg
-    simp only [this, List.foldl_nil]
-    exact hnl ▸ P.holds
-  rcases crash_class ver P o1 o2 ho1 k with F | ⟨hh, hH, _⟩
-  · apply rerun_on_first ver P F hnow' o1' o2' ho1'
-    intro hnl _
-    have hr : id1 ≠ r := by
-      rcases hbr with h | h
-      · exact absurd hnl h
-      · exact h
-    exact F.other hnl (hcar hnl hr)
-  · rw [updateReqs_noop ver o1' o2' now' hh]
-    exact hH
+  have h0 : Rerunnable id1 id2 loc t₀ d X := Or.inl ⟨n, r, P.renow (by omega)⟩
+  have h1 := rerunnable_attempt ver h0 ⟨k, now, o1, o2⟩ ho1 P.hnow
+  exact (read_local ver (rerunnable_complete ver h1 o1' o2' ho1' now' hnow') oS hoS).1
+
+/-- `RedisOutput.SetRunId(new)` as a whole (`afterAttempts`): ANY number of attempts that do not complete
+    (each stopped, or answered with an error, after any number of its requests; the 3 of one
+    `RetryLinearJitter`, those of later calls, those of later processes), each reading the target as
+    the ones before left it, then one attempt that completes: the position is read under the LOCAL
+    key, same offset, same database. -/
+theorem setrunid_retries_read_local (ver id1 id2 loc : Bytes) (t₀ : Target) (n r : Bytes) (d : Nat)
+    (X now : Int) (P : UpdPre id1 id2 loc t₀ n r d X now) (as : List Attempt)
+    (has : ∀ a ∈ as, d ∈ a.o1 ∧ (-(2^63 : Int) ≤ a.now ∧ a.now < 2^63))
+    (o1 o2 oS : List Nat) (ho1 : d ∈ o1) (hoS : d ∈ oS) (now' : Int)
+    (hnow' : -(2^63 : Int) ≤ now' ∧ now' < 2^63) :
+    ∃ c, getCheckpoint ver
+        (applyAll (afterAttempts ver loc [id1, id2] t₀ as)
+          (updateReqs ver (afterAttempts ver loc [id1, id2] t₀ as) loc [id1, id2] o1 o2 now'))
+        loc [id1, id2] oS = some (c, (d : Int)) ∧ c.offset = X := by
+  have h0 : Rerunnable id1 id2 loc t₀ d X := Or.inl ⟨n, r, P.renow (by omega)⟩
+  have h1 := rerunnable_attempts ver as h0 has
+  exact (read_local ver (rerunnable_complete ver h1 o1 o2 ho1 now' hnow') oS hoS).1
+
+/-- … and at every moment in between (after any number of incomplete attempts) a START reads it too:
+    through the checkpoint hash, same offset, same database. -/
+theorem setrunid_retries_start_safe (ver id1 id2 loc : Bytes) (t₀ : Target) (n r : Bytes) (d : Nat)
+    (X now : Int) (P : UpdPre id1 id2 loc t₀ n r d X now) (as : List Attempt)
+    (has : ∀ a ∈ as, d ∈ a.o1 ∧ (-(2^63 : Int) ≤ a.now ∧ a.now < 2^63)) (oS : List Nat) (hoS : d ∈ oS) :
+    startPoint ver [id1, id2] oS (afterAttempts ver loc [id1, id2] t₀ as) = some (some (X, d)) := by
+  have h0 : Rerunnable id1 id2 loc t₀ d X := Or.inl ⟨n, r, P.renow (by omega)⟩
+  rcases rerunnable_attempts ver as h0 has with ⟨n', r', P'⟩ | ⟨hh, hH⟩
+  · exact startPoint_of_holds ver P'.hn P'.hn0 P'.holds oS hoS
+  · exact startPoint_of_holds ver hh P.hloc hH oS hoS
 
 /-- gc asks for `exceptNewest` exactly for the ids that are live -/
 theorem gc_passes_exceptNewest (live : List Bytes) (before : Int) (t : Target) (rid cpn : Bytes)
@@ -374,7 +375,6 @@ theorem ex_updPre : UpdPre exId1 exId2 exCp exT exCp exId2 2 700 9 :=
   { hne := by decide, h1 := by decide, h1q := by decide, h2q := by decide, hloc := by decide,
     hn := by decide, hn0 := by decide, holds := ex_holds, own := ex_own,
     fresh := fun h => absurd rfl h,
-    orphan := fun _ h => by rw [exT_cps] at h; exact absurd h (by decide),
     hnow := by decide }
 
 
@@ -399,20 +399,48 @@ example (k : Nat) : ∃ c, getCheckpoint [49]
       (updateReqs [49] (applyAll exT ((updateReqs [49] exT exCp [exId1, exId2] [5, 2] [2, 5] 9).take k)) exCp
         [exId1, exId2] [2, 5] [5, 2] 11)) exCp [exId1, exId2] [5, 2] = some (c, ((2 : Nat) : Int)) ∧ c.offset = 700 :=
   update_rerun_reads_local [49] exId1 exId2 exCp exT exCp exId2 2 700 9 11 ex_updPre
-    (fun _ _ => ⟨by rw [exT_cps]; decide, by rw [exT_cps]; decide⟩)
     [5, 2] [2, 5] [2, 5] [5, 2] [5, 2] (by decide) (by decide) (by decide) (by decide) k
-/-- the retry really runs a second time after a cut at request 1 (5 requests again), the start does not
+/-- the usual restart after a fail-over: the source reports `[new, old] = [exId1, exId2]`, the position is
+    stored under the old id, the start swaps the ids and renames the key to `[100]` (4 requests); cut
+    anywhere, the next start (same report) reads 700@2 under the new key -/
+theorem ex_updPre_rename : UpdPre exId2 exId1 [100] exT exCp exId2 2 700 9 :=
+  { hne := by decide, h1 := by decide, h1q := by decide, h2q := by decide, hloc := by decide,
+    hn := by decide, hn0 := by decide, holds := ex_holds.swap, own := ex_own,
+    fresh := fun _ => LocOk.of_fresh (by intro db e he; simp [exT, exCp] at he),
+    hnow := by decide }
+example : startIds exT.hash [exId1, exId2] = [exId2, exId1] := by decide
+example : (updateReqs [49] exT [100] [exId2, exId1] [5, 2] [2, 5] 9).length = 4 := by decide
+example (k : Nat) : ∃ c, getCheckpoint [49]
+    (nextStart [49] (applyAll exT ((updateReqs [49] exT [100] [exId2, exId1] [5, 2] [2, 5] 9).take k)) [100]
+      [exId1, exId2] [2, 5] [5, 2] 11) [100] [exId1, exId2] [5, 2] = some (c, ((2 : Nat) : Int)) ∧ c.offset = 700 :=
+  update_restart_reads_local_swapped [49] exId2 exId1 [100] exT exCp exId2 2 700 9 11 ex_updPre_rename (by decide)
+    [5, 2] [2, 5] [2, 5] [5, 2] [5, 2] (by decide) (by decide) (by decide) (by decide) k
+
+/-- the retry really runs a second time after a cut at request 1: it writes the new id's entry again and
+    repoints the hash, and (D34) deletes nothing — it read its own new id back; the start does not run
     (it orders the ids by the hash, which still maps the old id: nothing to do) -/
 example : (updateReqs [49] (applyAll exT ((updateReqs [49] exT exCp [exId1, exId2] [5, 2] [2, 5] 9).take 1)) exCp
-    [exId1, exId2] [2, 5] [5, 2] 11).length = 4 := by decide
+    [exId1, exId2] [2, 5] [5, 2] 11).length = 2 := by decide
+/-- three attempts cut after 1, 0 and 3 requests, then a complete one -/
+example : ∃ c, getCheckpoint [49]
+    (applyAll (afterAttempts [49] exCp [exId1, exId2] exT [⟨1, 9, [5, 2], [2, 5]⟩, ⟨0, 10, [2, 5], [5, 2]⟩, ⟨3, 11, [2], [2]⟩])
+      (updateReqs [49] (afterAttempts [49] exCp [exId1, exId2] exT [⟨1, 9, [5, 2], [2, 5]⟩, ⟨0, 10, [2, 5], [5, 2]⟩, ⟨3, 11, [2], [2]⟩])
+        exCp [exId1, exId2] [2, 5] [5, 2] 12)) exCp [exId1, exId2] [5, 2] = some (c, ((2 : Nat) : Int)) ∧ c.offset = 700 :=
+  setrunid_retries_read_local [49] exId1 exId2 exCp exT exCp exId2 2 700 9 ex_updPre
+    [⟨1, 9, [5, 2], [2, 5]⟩, ⟨0, 10, [2, 5], [5, 2]⟩, ⟨3, 11, [2], [2]⟩]
+    (by intro a ha; simp only [List.mem_cons, List.not_mem_nil, or_false] at ha
+        rcases ha with rfl | rfl | rfl <;> decide)
+    [2, 5] [5, 2] [5, 2] (by decide) (by decide) 12 (by decide)
 example : startIds (applyAll exT ((updateReqs [49] exT exCp [exId1, exId2] [5, 2] [2, 5] 9).take 1)).hash
     [exId1, exId2] = [exId2, exId1] := by decide
 
-/-- `update_rerun_reads_local` needs `Carrier id2`: the hash maps the old id, whose own entry in
-    database 2 reads 50; a stray `<new>_offset = 70` (no run id of the new id) makes the pair read
-    70@2. Cut after the first HSET, then the same call again: it reads run id = NEW id, treats it
-    as the old one and deletes the new id's fields — the position falls back to 50. (The START
-    does not: it puts the mapped id first and has nothing to do.) -/
+/-- the state that made the retry lose the position BEFORE the repair D34 (it needed a precondition
+    `Carrier id2` then): the hash maps the old id, whose own entry in database 2 reads 50; a larger
+    `<new>_offset = 70` beside it makes the pair read 70@2 (reachable on the code before D33: the
+    relabel failed three times, the next SetRunId of the process returned at once, the replay wrote
+    under the unmapped new id). Cut after the first HSET, then the same call again: it read run
+    id = NEW id, took it for the old one and deleted the new id's fields — 70 fell back to 50. With
+    the repaired operation both the retry and the start keep 70@2. -/
 def exOrph : Target :=
   { hash := [(exId2, exCp)],
     cps := fun db n => if n = exCp ∧ db = 2 then
@@ -421,7 +449,7 @@ example : startPoint [49] [exId1, exId2] [2] exOrph = some (some (70, 2)) := by 
 example : startPoint [49] [exId1, exId2] [2]
     (applyAll (applyAll exOrph ((updateReqs [49] exOrph exCp [exId1, exId2] [2] [2] 9).take 1))
       (updateReqs [49] (applyAll exOrph ((updateReqs [49] exOrph exCp [exId1, exId2] [2] [2] 9).take 1)) exCp
-        [exId1, exId2] [2] [2] 11)) = some (some (50, 2)) := by decide
+        [exId1, exId2] [2] [2] 11)) = some (some (70, 2)) := by decide
 example : startPoint [49] [exId1, exId2] [2]
     (nextStart [49] (applyAll exOrph ((updateReqs [49] exOrph exCp [exId1, exId2] [2] [2] 9).take 1)) exCp
       [exId1, exId2] [2] [2] 11) = some (some (70, 2)) := by decide
